@@ -41,7 +41,7 @@ def sample(Y, m=1, seed=None, unsert=1.E-10):
     p = np.maximum(p, 0)
     p = p / p.sum()
     ind = rand.choice(Y[0].shape[1], m, p=p)
-    phi[0] = Y[0][0, ind, :] # ind here is an array even if m=1
+    phi[0] = np.asarray(Y[0][0, ind, :], dtype=float) # ind is an array even if m=1
 
     res = np.zeros((m, d), dtype=int)
     res[:, 0] = ind
